@@ -242,12 +242,12 @@ class Lazy:
         self.memo[key] = ret_tainted
         return ret_tainted
 
-    def _report(self, ctx: Ctx, node: ast.AST, what: str, why: str, path: tuple):
+    def _report(self, ctx: Ctx, node: ast.AST, what: str, why: str, path: tuple, construct: str | None = None):
         fn = ctx.fn
-        k = (fn.qualname, norm(node))
+        k = (fn.qualname, construct or norm(node))
         if k not in self.findings:
             chain = " -> ".join([f.qualname.split(".")[-2] + "." + f.name if f.cls else f.name for f, _ in path] + [fn.name])
-            self.findings[k] = (fn, node, what, why, chain)
+            self.findings[k] = (fn, node, what, why, chain, construct)
 
     def _sinks(self, ctx: Ctx, ff: FuncFacts, tparams, protected, path):
         fn = ctx.fn
@@ -272,7 +272,9 @@ class Lazy:
                 if isinstance(f, ast.Attribute) and f.attr in SINK_METHODS and not ff.is_static_callee(f.value) and not ff.is_object_receiver(f.value):
                     self.n_sinks_examined += 1
                     if self.tainted(f.value, ff, ctx, tparams) and unprotected(n):
-                        self._report(ctx, n, f".{f.attr}()", SINK_METHODS[f.attr], path)
+                        # keyed by the method and its arguments, not by how the receiver is written
+                        args_txt = ", ".join([norm(a) for a in n.args] + [f"{k.arg}={norm(k.value)}" for k in n.keywords])
+                        self._report(ctx, n, f".{f.attr}()", SINK_METHODS[f.attr], path, construct=f".{f.attr}({args_txt})")
                 elif isinstance(f, ast.Attribute) and f.attr == "where" and not ff.is_static_callee(f.value):
                     d = call_kwargs(n).get("drop")
                     if isinstance(d, ast.Constant) and d.value is True:
@@ -296,6 +298,10 @@ class Lazy:
             for t in tests:
                 parts = t.values if isinstance(t, ast.BoolOp) else [t]
                 for part in parts:
+                    while isinstance(part, ast.UnaryOp) and isinstance(part.op, ast.Not):
+                        part = part.operand  # `not x` needs the truth value of x, nothing more
+                    if isinstance(part, ast.BoolOp):
+                        continue  # its operands are visited on their own
                     if isinstance(part, ast.Compare) and all(isinstance(o, (ast.Is, ast.IsNot, ast.In, ast.NotIn)) for o in part.ops):
                         continue
                     if isinstance(part, ast.Constant) or isinstance(part, ast.Name) and part.id in ("True", "False"):
@@ -340,8 +346,8 @@ def check(chk):
             params = frozenset(p for p in fit.params if p not in ("self", "dim"))
             lz.analyze(Ctx(pm, fit, cls), params, False, ())
     per_fn: dict[str, int] = {}
-    for (fq, txt), (fn, node, what, why, chain) in sorted(lz.findings.items()):
-        chk.violation("LAZY.sink", fn, node,
+    for (fq, txt), (fn, node, what, why, chain, construct) in sorted(lz.findings.items()):
+        chk.violation("LAZY.sink", fn, node, construct=construct,
                       why=f"{what} on lazily evaluated data during fit without a compute/check_nans guard on the call path ({why}); reached via {chain}: "
                           "with compute=False and check_nans=False the fit triggers a dask computation")
         per_fn[fq] = per_fn.get(fq, 0) + 1
